@@ -1,7 +1,15 @@
-(* C02.Op — operator OBJECTS as the library holds them: one constructor per class (the classes whose C02 methods
-   all come from the base class are merged into [Leaf]), [denote] (the ONE dense batched matrix an object represents)
-   and [wfb] (the invariants the library's constructors establish: children of a Sum / Matmul / Kronecker / Mul /
-   added-diagonal object have been expanded to ONE common batch shape, sizes fit, ...).
+(* C02.Op — operator OBJECTS as the library holds them, [denote] (the ONE dense batched matrix an object represents)
+   and [wfb] (the invariants the library's constructors establish: children of a Sum / Matmul / Kronecker / Mul
+   object have been expanded to ONE common batch shape, sizes fit, ...).
+
+   One constructor per class FAMILY: the classes of a family share their constructor and differ by a tag, because the
+   C02 methods dispatch on the family (isinstance) and rebuild with [self.__class__]:
+     SumC   k ops : SumLinearOperator and its subclasses PsdSum, SumKronecker, AddedDiag, KroneckerProductAddedDiag,
+                    LowRankRootAddedDiag.  For the three added-diagonal classes ops = [_linear_op; _diag_tensor].
+     RootC  k r   : RootLinearOperator, LowRankRootLinearOperator, CholLinearOperator (lower factor; the upper
+                    orientation is a defect recorded under C01 and excluded here)
+     KronC  k ops : KroneckerProductLinearOperator, ...Triangular (upper flag), ...Diag
+   The classes that define none of the C02 methods themselves are merged into [Leaf].
 
    Batch shapes are innermost-first (Batch.v).  Vectors are n x 1 [BT]s, batches of constants are 1 x 1 [BT]s. *)
 From Coq Require Import List ZArith Lia Bool Arith.
@@ -9,9 +17,10 @@ Import ListNotations.
 Require Import C02.Sums C02.Batch C02.Tensor C02.Dense.
 Open Scope Z_scope.
 
-(* classes that define none of the C02 methods themselves (everything is inherited from LinearOperator); their
-   constructor arguments are irrelevant here, [t] is the dense matrix they represent (C01's subject) *)
 Inductive leafk := LUser | LKernel | LPerm | LTransPerm | LMasked.
+Inductive sumk := KSum | KPsdSum | KSumKron | KAddedDiag | KKPAD | KLRRAD.
+Inductive rootk := KRoot | KLRRoot | KChol.
+Inductive kronk := KKron | KKronTri (upper : bool) | KKronDiag.
 
 Inductive Op : Type :=
 | Dense (t : BT)
@@ -22,18 +31,9 @@ Inductive Op : Type :=
 | Zero (bs : shape) (m n : nat)
 | Toep (col : BT)                             (* batch x n x 1 *)
 | Tri (base : Op) (upper : bool)              (* TriangularLinearOperator(_tensor, upper) *)
-| Chol (tri : Op) (upper : bool)              (* CholLinearOperator: a RootLinearOperator whose root is triangular *)
-| Root (r : Op)
-| LRRoot (r : Op)                             (* LowRankRootLinearOperator *)
-| Kron (ops : list Op)
-| KronTri (ops : list Op) (upper : bool)
-| KronDiag (ops : list Op)
-| KPAD (k d : Op)                             (* KroneckerProductAddedDiag(linear_op, diag_tensor) *)
-| SumKron (a b : Op)
-| AddedDiag (a d : Op)                        (* (_linear_op, _diag_tensor) *)
-| LRRAD (a d : Op)                            (* LowRankRootAddedDiag *)
-| Sum (ops : list Op)
-| PsdSum (ops : list Op)
+| RootC (k : rootk) (r : Op)
+| KronC (k : kronk) (ops : list Op)
+| SumC (k : sumk) (ops : list Op)
 | Matmul (l r : Op)
 | Mul (l r : Op)
 | CMul (base : Op) (c : BT)                   (* ConstantMul: c is 1 x 1 with a batch shape that expands to base's *)
@@ -54,18 +54,9 @@ Hypothesis HIdent : forall n b, P (Ident n b).
 Hypothesis HZero : forall b m n, P (Zero b m n).
 Hypothesis HToep : forall c, P (Toep c).
 Hypothesis HTri : forall b u, P b -> P (Tri b u).
-Hypothesis HChol : forall b u, P b -> P (Chol b u).
-Hypothesis HRoot : forall r, P r -> P (Root r).
-Hypothesis HLRRoot : forall r, P r -> P (LRRoot r).
-Hypothesis HKron : forall ops, Forall P ops -> P (Kron ops).
-Hypothesis HKronTri : forall ops u, Forall P ops -> P (KronTri ops u).
-Hypothesis HKronDiag : forall ops, Forall P ops -> P (KronDiag ops).
-Hypothesis HKPAD : forall k d, P k -> P d -> P (KPAD k d).
-Hypothesis HSumKron : forall a b, P a -> P b -> P (SumKron a b).
-Hypothesis HAddedDiag : forall a b, P a -> P b -> P (AddedDiag a b).
-Hypothesis HLRRAD : forall a b, P a -> P b -> P (LRRAD a b).
-Hypothesis HSum : forall ops, Forall P ops -> P (Sum ops).
-Hypothesis HPsdSum : forall ops, Forall P ops -> P (PsdSum ops).
+Hypothesis HRootC : forall k r, P r -> P (RootC k r).
+Hypothesis HKronC : forall k ops, Forall P ops -> P (KronC k ops).
+Hypothesis HSumC : forall k ops, Forall P ops -> P (SumC k ops).
 Hypothesis HMatmul : forall l r, P l -> P r -> P (Matmul l r).
 Hypothesis HMul : forall l r, P l -> P r -> P (Mul l r).
 Hypothesis HCMul : forall b c, P b -> P (CMul b c).
@@ -88,18 +79,9 @@ Fixpoint Op_ind' (e : Op) : P e :=
   | Zero b m n => HZero b m n
   | Toep c => HToep c
   | Tri b u => HTri b u (Op_ind' b)
-  | Chol b u => HChol b u (Op_ind' b)
-  | Root r => HRoot r (Op_ind' r)
-  | LRRoot r => HLRRoot r (Op_ind' r)
-  | Kron ops => HKron ops (list_ind ops)
-  | KronTri ops u => HKronTri ops u (list_ind ops)
-  | KronDiag ops => HKronDiag ops (list_ind ops)
-  | KPAD k d => HKPAD k d (Op_ind' k) (Op_ind' d)
-  | SumKron a b => HSumKron a b (Op_ind' a) (Op_ind' b)
-  | AddedDiag a b => HAddedDiag a b (Op_ind' a) (Op_ind' b)
-  | LRRAD a b => HLRRAD a b (Op_ind' a) (Op_ind' b)
-  | Sum ops => HSum ops (list_ind ops)
-  | PsdSum ops => HPsdSum ops (list_ind ops)
+  | RootC k r => HRootC k r (Op_ind' r)
+  | KronC k ops => HKronC k ops (list_ind ops)
+  | SumC k ops => HSumC k ops (list_ind ops)
   | Matmul l r => HMatmul l r (Op_ind' l) (Op_ind' r)
   | Mul l r => HMul l r (Op_ind' l) (Op_ind' r)
   | CMul b c => HCMul b c (Op_ind' b)
@@ -123,11 +105,9 @@ Fixpoint denote (e : Op) : BT :=
   | Zero b m n => dzero b m n
   | Toep col => dtoeplitz col
   | Tri b _ => denote b
-  | Chol t upper => let T := denote t in if upper then dmm (dtr T) T else dmm T (dtr T)
-  | Root r | LRRoot r => let R := denote r in dmm R (dtr R)
-  | Kron ops | KronTri ops _ | KronDiag ops => fold_right (fun x acc => dkron (denote x) acc) (deye [] 1) ops
-  | KPAD a b | SumKron a b | AddedDiag a b | LRRAD a b => dadd (denote a) (denote b)
-  | Sum ops | PsdSum ops => dsuml (map denote ops)
+  | RootC _ r => let R := denote r in dmm R (dtr R)
+  | KronC _ ops => fold_right (fun x acc => dkron (denote x) acc) (deye [] 1) ops
+  | SumC _ ops => dsuml (map denote ops)
   | Matmul l r => dmm (denote l) (denote r)
   | Mul l r => dhad (denote l) (denote r)
   | CMul b c => dscale (denote b) c
@@ -151,26 +131,18 @@ Definition cols (e : Op) : nat := nc (denote e).
    AddedDiag, PsdSum, SumKronecker < Sum; KroneckerProductAddedDiag, LowRankRootAddedDiag < AddedDiag *)
 Definition is_zero (e : Op) : bool := match e with Zero _ _ _ => true | _ => false end.
 Definition is_dense (e : Op) : bool := match e with Dense _ => true | _ => false end.
-Definition is_diag (e : Op) : bool := match e with Diag _ | CDiag _ _ | Ident _ _ | KronDiag _ => true | _ => false end.
+Definition is_diag (e : Op) : bool :=
+  match e with Diag _ | CDiag _ _ | Ident _ _ | KronC KKronDiag _ => true | _ => false end.
 Definition is_cdiag (e : Op) : bool := match e with CDiag _ _ | Ident _ _ => true | _ => false end.
-Definition is_krondiag (e : Op) : bool := match e with KronDiag _ => true | _ => false end.
+Definition is_krondiag (e : Op) : bool := match e with KronC KKronDiag _ => true | _ => false end.
 Definition is_tri (e : Op) : bool := match e with Tri _ _ => true | _ => is_diag e end.
-Definition is_root (e : Op) : bool := match e with Root _ | LRRoot _ | Chol _ _ => true | _ => false end.
-Definition is_lrroot (e : Op) : bool := match e with LRRoot _ => true | _ => false end.
-Definition is_kron (e : Op) : bool := match e with Kron _ | KronTri _ _ | KronDiag _ => true | _ => false end.
-Definition is_sum (e : Op) : bool :=
-  match e with Sum _ | PsdSum _ | AddedDiag _ _ | KPAD _ _ | SumKron _ _ | LRRAD _ _ => true | _ => false end.
+Definition is_root (e : Op) : bool := match e with RootC _ _ => true | _ => false end.
+Definition is_lrroot (e : Op) : bool := match e with RootC KLRRoot _ => true | _ => false end.
+Definition is_kron (e : Op) : bool := match e with KronC _ _ => true | _ => false end.
+Definition is_sum (e : Op) : bool := match e with SumC _ _ => true | _ => false end.
+Definition is_added_diag (e : Op) : bool :=
+  match e with SumC KAddedDiag _ | SumC KKPAD _ | SumC KLRRAD _ => true | _ => false end.
 Definition is_blockdiag (e : Op) : bool := match e with BlockDiag _ => true | _ => false end.
-
-(* the root of a Root-class object ( .root ) *)
-Definition root_of (e : Op) : Op := match e with Root r | LRRoot r | Chol r _ => r | _ => e end.
-(* the summands of a Sum-class object ( .linear_ops ) *)
-Definition summands (e : Op) : list Op :=
-  match e with
-  | Sum ops | PsdSum ops => ops
-  | AddedDiag a d | KPAD a d | SumKron a d | LRRAD a d => [a; d]
-  | _ => [e]
-  end.
 
 (* ._diag of a Diag-class object: the diagonal as a column vector *)
 Definition diag_of (e : Op) : BT :=
@@ -193,6 +165,9 @@ Definition idx_okb (idx : BT) (bound : nat) : bool :=
   forallb (fun I => forallb (fun i => forallb (fun a => (0 <=? ent idx I i a) && (Z.to_nat (ent idx I i a) <? bound)%nat)
                                                (seq 0 (nc idx))) (seq 0 (nr idx))) (all_bidx (bsh idx)).
 
+Definition same_size_as (x : Op) (l : list Op) : bool :=
+  forallb (fun y => Nat.eqb (rows y) (rows x) && Nat.eqb (cols y) (cols x)) l.
+
 Fixpoint wfb (e : Op) : bool :=
   match e with
   | Dense _ | Leaf _ _ => true
@@ -201,18 +176,21 @@ Fixpoint wfb (e : Op) : bool :=
   | Ident _ _ | Zero _ _ _ => true
   | Toep col => Nat.eqb (nc col) 1
   | Tri b _ => wfb b && Nat.eqb (rows b) (cols b)
-  | Chol t u => wfb t && Nat.eqb (rows t) (cols t) && negb u       (* upper=True: orientation defect (C01), excluded *)
-  | Root r | LRRoot r => wfb r
-  | Kron ops | KronTri ops _ | KronDiag ops =>
+  | RootC _ r => wfb r
+  | KronC k ops =>
       forallb wfb ops && forallb (fun x => pos (rows x) && pos (cols x)) ops &&
-      match ops with [] => true | x :: r => all_batch (batch x) r end
-  | KPAD a b | SumKron a b | AddedDiag a b | LRRAD a b =>
-      wfb a && wfb b && shape_eqb (batch a) (batch b) && Nat.eqb (rows a) (rows b) && Nat.eqb (cols a) (cols b)
-  | Sum ops | PsdSum ops =>
+      match ops with [] => false | x :: r => all_batch (batch x) r end &&
+      match k with KKronDiag => forallb is_diag ops | _ => true end
+  | SumC k ops =>
       forallb wfb ops &&
       match ops with
       | [] => false
-      | x :: r => all_batch (batch x) r && forallb (fun y => Nat.eqb (rows y) (rows x) && Nat.eqb (cols y) (cols x)) r
+      | x :: r => all_batch (batch x) r && same_size_as x r
+      end &&
+      match k with
+      | KAddedDiag | KKPAD | KLRRAD =>
+          match ops with [a; d] => negb (is_diag a) && is_diag d && Nat.eqb (rows a) (cols a) | _ => false end
+      | _ => true
       end
   | Matmul l r => wfb l && wfb r && shape_eqb (batch l) (batch r) && Nat.eqb (cols l) (rows r)
   | Mul l r => wfb l && wfb r && shape_eqb (batch l) (batch r) && Nat.eqb (rows l) (rows r) && Nat.eqb (cols l) (cols r)
@@ -248,8 +226,10 @@ Definition wf (e : Op) : Prop := wfb e = true.
 Definition cls_code (e : Op) : nat :=
   match e with
   | Dense _ => 1 | Leaf LUser _ => 2 | Leaf LKernel _ => 3 | Leaf LPerm _ => 4 | Leaf LTransPerm _ => 5 | Leaf LMasked _ => 6
-  | Diag _ => 7 | CDiag _ _ => 8 | Ident _ _ => 9 | Zero _ _ _ => 10 | Toep _ => 11 | Tri _ _ => 12 | Chol _ _ => 13
-  | Root _ => 14 | LRRoot _ => 15 | Kron _ => 16 | KronTri _ _ => 17 | KronDiag _ => 18 | KPAD _ _ => 19 | SumKron _ _ => 20
-  | AddedDiag _ _ => 21 | LRRAD _ _ => 22 | Sum _ => 23 | PsdSum _ => 24 | Matmul _ _ => 25 | Mul _ _ => 26 | CMul _ _ => 27
+  | Diag _ => 7 | CDiag _ _ => 8 | Ident _ _ => 9 | Zero _ _ _ => 10 | Toep _ => 11 | Tri _ _ => 12
+  | RootC KChol _ => 13 | RootC KRoot _ => 14 | RootC KLRRoot _ => 15
+  | KronC KKron _ => 16 | KronC (KKronTri _) _ => 17 | KronC KKronDiag _ => 18
+  | SumC KKPAD _ => 19 | SumC KSumKron _ => 20 | SumC KAddedDiag _ => 21 | SumC KLRRAD _ => 22 | SumC KSum _ => 23 | SumC KPsdSum _ => 24
+  | Matmul _ _ => 25 | Mul _ _ => 26 | CMul _ _ => 27
   | BlockDiag _ => 28 | BlockInter _ => 29 | SumBatch _ => 30 | BRepeat _ _ => 31 | Cat _ _ => 32 | Interp _ _ _ _ _ => 33
   end%nat.
